@@ -481,7 +481,7 @@ Qed.
 (* take_from_if in terms of peek_tag, on every fault-free state (any limit) *)
 Lemma visible_len s : len (visible s) <= len (rem s) /\ lim_ge (lim s) (len (visible s)).
 Proof.
-  unfold visible. destruct (lim s) as [l|]; cbn [lim_ge]; [|split; [lia|trivial]].
+  rewrite visible_eq. destruct (lim s) as [l|]; cbn [lim_ge]; [|split; [lia|trivial]].
   unfold firstN, len. rewrite firstn_length. split; lia.
 Qed.
 
